@@ -138,7 +138,9 @@ func steps() []step {
 	add("edge:a-other->[b]", func(d *sbom.Document) {
 		nl(d).Edges = append(nl(d).Edges, &sbom.Edge{From: "a", Type: sbom.Edge_other, To: []string{"b"}})
 	})
-	add("edge:a-(-1)->[b]", func(d *sbom.Document) { nl(d).Edges = append(nl(d).Edges, &sbom.Edge{From: "a", Type: -1, To: []string{"b"}}) })
+	add("edge:a-(-1)->[b]", func(d *sbom.Document) {
+		nl(d).Edges = append(nl(d).Edges, &sbom.Edge{From: "a", Type: -1, To: []string{"b"}})
+	})
 	add("doctype:-1", func(d *sbom.Document) {
 		md(d).DocumentTypes = append(md(d).DocumentTypes, &sbom.DocumentType{Type: sbom.DocumentType_SBOMType(-1).Enum()})
 	})
@@ -291,6 +293,10 @@ func Run(c *engine.Ctx) {
 // nodes, rooted at the first. Self-containment, cycles and multiple parents are all inside.
 func graphShapes(c *engine.Ctx) {
 	c.Group("totality-graph-shapes")
+	if !c.Thorough() {
+		c.SetOrderSweep(false) // quick tier: this group runs under ascending map order only (266k CycloneDX serializations)
+		defer c.SetOrderSweep(true)
+	}
 	ids := []string{"r", "a", "b", "c"}
 	type eo struct {
 		From string
@@ -425,7 +431,7 @@ func histDocs() map[string]*sbom.Document {
 		"D8-deep-reversed": mk("8", []string{"r", "a", "b", "c"}, []*sbom.Edge{e("r", sbom.Edge_contains, "c"), e("c", sbom.Edge_contains, "b"), e("b", sbom.Edge_contains, "a")}, "r"),
 		// not normalised: repeated targets (adjacent and apart) and two edge objects per source and type
 		"D10-repeated-targets": mk("10", []string{"r", "a", "b"}, []*sbom.Edge{e("r", sbom.Edge_dependsOn, "a", "a", "b"), e("r", sbom.Edge_contains, "b", "a", "b"), e("r", sbom.Edge_dependsOn, "b", "a")}, "r"),
-		"D9-cycle":         mk("9", []string{"r", "a", "b"}, []*sbom.Edge{e("a", sbom.Edge_contains, "b"), e("b", sbom.Edge_contains, "a"), e("r", sbom.Edge_dependsOn, "a")}, "r"),
+		"D9-cycle":             mk("9", []string{"r", "a", "b"}, []*sbom.Edge{e("a", sbom.Edge_contains, "b"), e("b", sbom.Edge_contains, "a"), e("r", sbom.Edge_dependsOn, "a")}, "r"),
 	}
 }
 
@@ -436,7 +442,9 @@ type hcall struct {
 	F   formats.Format
 }
 
-func callOutput(k hcall) string { return callOutputOn(proto.Clone(histDocs()[k.Doc]).(*sbom.Document), k) }
+func callOutput(k hcall) string {
+	return callOutputOn(proto.Clone(histDocs()[k.Doc]).(*sbom.Document), k)
+}
 
 func callOutputOn(d *sbom.Document, k hcall) string {
 	out, err := rw.Write(d, k.F, 2)
